@@ -71,6 +71,12 @@ type (
 	}
 )
 
+// A ratio literal such as 1/0 is accepted by the grammar but denotes no number;
+// ToRatio must not be called on it.
+func (r RatioLiteral) HasZeroDenominator() bool {
+	return r.Denominator == nil || r.Denominator.Sign() == 0
+}
+
 func (r RatioLiteral) ToRatio() *big.Rat {
 	return new(big.Rat).SetFrac(r.Numerator, r.Denominator)
 }
